@@ -1085,12 +1085,48 @@ def iter_next(I, st, depth, callee, args, body, ln):
     return En({NONE: (), SOME: (TOP,)})
 
 
+def str_to_lowercase(I, st, depth, callee, args, body, ln):
+    v = deref(I, st, args[0]) if isinstance(args[0], Ref) else args[0]
+    if isinstance(v, Str):
+        return Str(v.s.lower())
+    if isinstance(v, Opaque):
+        # an unknown but fixed string: its lower-casing is again fixed; lower-casing is idempotent
+        return v if str(v.tag).startswith("lc:") else Opaque("lc:%s" % (v.tag,))
+    return TOP
+
+
+def vec_append(I, st, depth, callee, args, body, ln):
+    r, o = args[0], args[1]
+    if isinstance(r, Ref) and isinstance(o, Ref):
+        v = I.load(st, r.alloc, r.path)
+        w = I.load(st, o.alloc, o.path)
+        if isinstance(v, Arr) and isinstance(w, Arr) and len(v.e) + len(w.e) < MAX_EXACT:
+            nv = Arr(v.e + w.e)
+        elif isinstance(v, (Arr, ArrS)) and isinstance(w, (Arr, ArrS)):
+            n, m = _vec_len(v), _vec_len(w)
+            ev, ew = _vec_elem(v), _vec_elem(w)
+            nv = ArrS(join(ev, ew) if ev is not BOT and ew is not BOT else (ev if ew is BOT else ew),
+                      D.binop("Add", n, m, "usize") if is_scalar(n) and is_scalar(m) else USIZE_TOP)
+        else:
+            nv = ArrS(TOP, USIZE_TOP)
+        I.store_to(st, r.alloc, r.path, nv, False, body, ln)
+        I.store_to(st, o.alloc, o.path, Arr(()), False, body, ln)
+    return Agg(())
+
+
 def slice_contains(I, st, depth, callee, args, body, ln):
     v = deref(I, st, args[0])
     x = deref(I, st, args[1])
     if isinstance(v, Arr):
         if not v.e:
             return 0
+        if isinstance(x, (Opaque, Str)) and all(isinstance(y, (Opaque, Str)) for y in v.e):
+            # opaque strings: equal tags denote the same string; different tags may or may not be equal
+            if any(type(y) is type(x) and y == x for y in v.e):
+                return 1
+            if isinstance(x, Str) and all(isinstance(y, Str) for y in v.e):
+                return 0
+            return BOOL
         if is_scalar(x) and all(is_scalar(y) for y in v.e):
             out = set()
             for y in v.e:
@@ -1286,6 +1322,8 @@ TABLE.update({
     "alloc::vec::Vec::<T, A>::drain": vec_drain,
     "core::slice::<impl [T]>::iter": slice_iter,
     "core::slice::<impl [T]>::contains": slice_contains,
+    "alloc::str::<impl str>::to_lowercase": str_to_lowercase,
+    "alloc::vec::Vec::<T, A>::append": vec_append,
     "core::slice::<impl [T]>::last": slice_last,
     "core::slice::<impl [T]>::len": vec_len,
     "core::slice::<impl [T]>::is_empty": vec_is_empty,
